@@ -453,3 +453,123 @@ static void run_c01_pool_reuse(void)
 }
 SIM_WORKLOAD("C06", "pool-reuse", run_c06_pool_reuse, 3)
 SIM_WORKLOAD("C01", "pool-reuse", run_c01_pool_reuse, 2)
+
+/* ---- scenario "priv-pool": a stream schedules an entry pool Q (MPMC) and a private pool P
+ * (ABT_POOL_ACCESS_PRIV: every push and pop happens on that stream).  Workers created in P by a
+ * unit of that stream block on eventuals; the stream is joined while they are blocked; later an
+ * external thread pushes a signaller into Q, which releases them on the stream itself.  P may
+ * also be listed by a second scheduler object that never runs (a spare one kept for later, or
+ * the stream's previous main scheduler, replaced but not yet freed by its owner): the join has
+ * to wait for the blocked workers all the same. ---- */
+#define PP_MAXW 3
+static struct {
+    ABT_xstream es;
+    ABT_pool Q, P;
+    ABT_eventual ev[PP_MAXW];
+    ABT_thread w[PP_MAXW];
+    int nw, mode;
+    volatile int created, done[PP_MAXW], join_issued, signalled;
+    ABT_sched replaced_by;
+} PP;
+static void pp_worker(void *arg)
+{
+    int i = (int)(long)arg;
+    ABT_OK(ABT_eventual_wait(PP.ev[i], NULL));
+    PP.done[i] = 1;
+    sim_progress();
+}
+static void pp_signaller(void *arg)
+{
+    (void)arg;
+    for (int i = 0; i < PP.nw; i++)
+        ABT_OK(ABT_eventual_set(PP.ev[i], NULL, 0));
+    PP.signalled = 1;
+}
+static void pp_spawner(void *arg)
+{
+    (void)arg;
+    if (PP.mode == 2) {
+        /* replace the running main scheduler by a new one over the same pools; the old one was
+         * created as not automatic, so it stays (listing P) until the harness frees it */
+        ABT_pool pools[2] = { PP.Q, PP.P };
+        ABT_OK(ABT_sched_create_basic(ABT_SCHED_BASIC, 2, pools, ABT_SCHED_CONFIG_NULL, &PP.replaced_by));
+        ABT_OK(ABT_xstream_set_main_sched(PP.es, PP.replaced_by));
+    }
+    for (int i = 0; i < PP.nw; i++)
+        ABT_OK(ABT_thread_create(PP.P, pp_worker, (void *)(long)i, ABT_THREAD_ATTR_NULL, &PP.w[i]));
+    PP.created = 1;
+}
+static void pp_releaser(void *arg)
+{
+    (void)arg;
+    while (!PP.join_issued)
+        sim_yield();
+    for (int k = 0; k < 3 + (int)sim_rand_n(SIM_RS_CHAOS, 60); k++)
+        sim_yield();
+    ABT_OK(ABT_thread_create(PP.Q, pp_signaller, NULL, ABT_THREAD_ATTR_NULL, NULL));
+    sim_progress();
+}
+static void run_c06_priv_pool(void)
+{
+    memset(&PP, 0, sizeof PP);
+    wl_env_swarm();
+    ABT_OK(ABT_init(0, NULL));
+    static const ABT_pool_kind pk[] = { ABT_POOL_FIFO, ABT_POOL_RANDWS, ABT_POOL_FIFO_WAIT };
+    static const ABT_sched_predef sk[] = { ABT_SCHED_BASIC, ABT_SCHED_PRIO, ABT_SCHED_RANDWS, ABT_SCHED_BASIC_WAIT };
+    PP.mode = (int)plan_n(3); /* 0 plain, 1 spare scheduler lists P too, 2 replaced main scheduler still lists P */
+    PP.nw = plan_range(1, PP_MAXW);
+    int ski = (int)plan_n(4);
+    ABT_OK(ABT_pool_create_basic(ski == 3 ? ABT_POOL_FIFO_WAIT : pk[plan_n(2)], ABT_POOL_ACCESS_MPMC, ABT_FALSE, &PP.Q));
+    ABT_OK(ABT_pool_create_basic(ski == 3 ? ABT_POOL_FIFO_WAIT : pk[plan_n(2)], ABT_POOL_ACCESS_PRIV, ABT_FALSE, &PP.P));
+    sim_note("priv-pool mode=%s sched=%d workers=%d ", PP.mode == 0 ? "plain" : PP.mode == 1 ? "spare-sched" : "replaced-sched", ski, PP.nw);
+    for (int i = 0; i < PP.nw; i++)
+        ABT_OK(ABT_eventual_create(0, &PP.ev[i]));
+    ABT_pool pools[2] = { PP.Q, PP.P };
+    ABT_sched sa, spare = ABT_SCHED_NULL;
+    ABT_sched_config cfg;
+    ABT_OK(ABT_sched_config_create(&cfg, ABT_sched_config_automatic, ABT_FALSE, ABT_sched_config_var_end));
+    ABT_OK(ABT_sched_create_basic(sk[ski], 2, pools, PP.mode == 2 ? cfg : ABT_SCHED_CONFIG_NULL, &sa));
+    if (PP.mode == 1)
+        ABT_OK(ABT_sched_create_basic(ABT_SCHED_BASIC, 1, &PP.P, cfg, &spare));
+    ABT_OK(ABT_sched_config_free(&cfg));
+    ABT_OK(ABT_xstream_create(sa, &PP.es));
+    int tid = sim_thread_create(pp_releaser, NULL);
+    ABT_OK(ABT_thread_create(PP.Q, pp_spawner, NULL, ABT_THREAD_ATTR_NULL, NULL));
+    /* wait until every worker is blocked, so that the stream's pools are empty at the join */
+    while (!PP.created)
+        ABT_OK(ABT_thread_yield());
+    for (int i = 0; i < PP.nw; i++)
+        for (;;) {
+            ABT_thread_state st;
+            ABT_OK(ABT_thread_get_state(PP.w[i], &st));
+            if (st == ABT_THREAD_STATE_BLOCKED)
+                break;
+            ABT_OK(ABT_thread_yield());
+        }
+    sim_progress();
+    PP.join_issued = 1;
+    ABT_OK(ABT_xstream_join(PP.es));
+    for (int i = 0; i < PP.nw; i++)
+        SIM_CHECK(PP.done[i], "join:returned-before-units-finished",
+                  "ABT_xstream_join returned while worker %d of the stream's private pool is still blocked (mode %d: %s)", i, PP.mode,
+                  PP.mode == 0 ? "one scheduler" : PP.mode == 1 ? "a spare scheduler object lists the pool too" : "the replaced, not yet freed main scheduler lists the pool too");
+    ABT_xstream_state st;
+    ABT_OK(ABT_xstream_get_state(PP.es, &st));
+    SIM_CHECK(st == ABT_XSTREAM_STATE_TERMINATED, "stream:not-terminated", "state %d after join", (int)st);
+    sim_thread_join(tid);
+    for (int i = 0; i < PP.nw; i++)
+        ABT_OK(ABT_thread_free(&PP.w[i]));
+    ABT_OK(ABT_xstream_free(&PP.es));
+    if (PP.mode == 2)
+        ABT_OK(ABT_sched_free(&sa));
+    if (spare != ABT_SCHED_NULL)
+        ABT_OK(ABT_sched_free(&spare));
+    for (int i = 0; i < PP.nw; i++)
+        ABT_OK(ABT_eventual_free(&PP.ev[i]));
+    ABT_OK(ABT_pool_free(&PP.Q));
+    ABT_OK(ABT_pool_free(&PP.P));
+    ABT_OK(ABT_finalize());
+    sim_ledger_check_empty("after ABT_finalize");
+    sim_count("c06.priv_pool_joins", 1);
+}
+SIM_WORKLOAD("C06", "priv-pool", run_c06_priv_pool, 2)
